@@ -180,6 +180,10 @@ class SimErrorCalculator(ErrorCalculator):
             else:
                 inside = all(float(s) <= self.domain[0][d] + (self.domain[1][d] - self.domain[0][d]) * bias[1][d] < float(e)
                              for d, (s, e) in enumerate(zip(refine_object.start, refine_object.end)))
+            if inside and len(bias) > 3 and bias[3] == "uneven":
+                # the focus intervals of the dimensions answer differently (keyed by the interval): with a margin near 1 one
+                # dimension is refined alone in a step and the others follow later - maximum levels are raised in an uneven order
+                return getattr(self, "scale", 1.0) * (0.3 + 0.7 * H(self.key, "fw", self.question(refine_object)))
             return getattr(self, "scale", 1.0) if inside else v * bias[2]
         if bias and hasattr(refine_object, "this_dim") and getattr(self, "domain", None):
             d = int(refine_object.this_dim)
